@@ -32,7 +32,7 @@ ASSUMPTIONS = ['scope is exactly the operation list of the statement (split, tok
                'file/BytesIO windows under lsb0 are not judged)']
 
 
-def gen_probe(rng, m):
+def gen_probe(rng, m, hint=None):
     L = len(m)
     kind = rng.choice(PROBES)
     ro = lambda: rng.choice([None, None, 0, 1, L, L - 1, L // 2, -1, -L, 8, 7, 9, 16, L + 1, -L - 1])  # noqa: E731
@@ -42,6 +42,11 @@ def gen_probe(rng, m):
         return kind, [ro(), ro(), rng.choice([None, 1, -1, 2, -2, 3, -3, 8, -8, 7, -7])]
     if kind in ('find', 'rfind', 'findall', 'startswith', 'endswith'):
         pl = rng.choice([1, 2, 3, 8, 9, 16])
+        if hint and rng.random() < 0.8:
+            pat_bits = hint
+            edge = lambda: rng.choice([None, None, 0, 3, 8, L, L - 3, L - 8, 8192, 8195, L - 8192, L - 8189, 16384])  # noqa: E731
+            return kind, [util.operand_spec(rng, pat_bits, ['Bits', 'BitArray', 'str', 'bitarray']), edge(), edge(),
+                          rng.choice([None, None, 1, 2]), rng.choice([False, None, True, True])]
         if L >= pl and rng.random() < 0.7:
             k = rng.randrange(0, L - pl + 1)
             if rng.random() < 0.4:
@@ -199,7 +204,7 @@ def episode(ctx, case, nsteps=0):
                     op, a = _mut.gen_step(rng, len(m), MUTS, max_len=20000)
                     what = 'mut'
                 else:
-                    op, a = gen_probe(rng, m)
+                    op, a = gen_probe(rng, m, case.get('hint'))
                     what = 'probe'
                 steps.append([mode, what, op, a])
             else:
@@ -319,11 +324,28 @@ def run(ctx):
     lengths = [0, 1, 7, 8, 9, 16, 17, 24, 33, 64, 65, 100, 129, 257]
     for i in range(n):
         r = ctx.rng.random()
-        L = ctx.rng.choice(lengths) if r < 0.97 else ctx.rng.choice([8300, 9000, 17000])
+        L = ctx.rng.choice(lengths) if r < 0.96 else ctx.rng.choice([8300, 9000, 16384, 17000, 24600])
         case = {'cls': ctx.rng.choice(util.CLASS_NAMES), 'init': util.content(ctx.rng, L), 'steps': []}
         ns = ctx.rng.randint(3, 10) if ctx.quick else ctx.rng.randint(3, 30)
         if L > 8000:
             ns = 4
+            if ctx.rng.random() < 0.6:
+                # almost empty data with a pattern planted next to multiples of 8192 bits counted from either end
+                L += ctx.rng.choice([0, 1, 3, 5, 8])
+                pl = ctx.rng.choice([8, 16, 9, 3, 12])
+                pat = '1' + rb(ctx.rng, pl - 2) + '1'
+                d = ['0'] * L
+                edges = [b + k * 8192 for b in (0, L) for k in (-2, -1, 0, 1, 2)]
+                cands = [e + dl for e in edges for dl in (-pl - 8, -pl, -9, -8, -7, -1, 0, 1, 7, 8)]
+                cands = [c for c in cands if 0 <= c <= L - pl]
+                for pos in ctx.rng.sample(cands, min(len(cands), ctx.rng.choice([1, 2, 3]))):
+                    if ctx.rng.random() < 0.5:
+                        pos = L - pl - ((L - pl - pos) // 8) * 8        # aligned when counted from the LSB end
+                        pos = max(pos, 0)
+                    d[pos:pos + pl] = list(pat)
+                case['init'] = ''.join(d)
+                case['hint'] = pat
+                case['cls'] = ctx.rng.choice(['Bits', 'ConstBitStream'])
         ctx.run_case(lambda c, k: episode(c, k, ns), case)
         if i % 499 == 0:
             ctx.sample({'cls': case['cls'], 'init': case['init'][:48], 'steps': case['steps'][:5]})
